@@ -444,7 +444,7 @@ def run(ctx):
     shared = {}
     n_add = 0
     for e in ai.events:
-        if e['kind'] == 'mutation' and e['how'] in ('append', 'extend', 'insert', 'setitem'):
+        if e['kind'] == 'mutation' and e['how'] in ('append', 'extend', 'insert', 'setitem', 'setslice'):
             n_add += 1
             bad = [x for x in e['sources'] if x[1] == 'other:query']
             if bad:
